@@ -39,6 +39,7 @@ var c17OpNames = []string{
 	"msg.String", "msg.ToBytes", "msg.Variables", "msg.Header", "msg.SetWaitBit", "msg.SetSession", "msg.Fill", "msg.SystemBytes",
 	"sml.Parse", "hsms.Parse", "build.List", "hsms.ParseRejected", "hsms.ParseRejected", "sml.ParseRejected",
 	"complete.SetSession", "complete.SetWaitBit", "complete.Fill", "sml.ParseDeep", "hsms.ParseDeep",
+	"ctrl.SelectRsp", "ctrl.DeselectRsp", "ctrl.LinktestRsp", "ctrl.Observe", "ctrl.Observe",
 }
 
 type c17Shared struct {
@@ -51,13 +52,15 @@ type c17Shared struct {
 	efill    map[string]interface{}
 	rejected []byte
 	badText  string
+	// shared control-message requests: answered and observed at the same time
+	selReq, deselReq, ltReq ast.HSMSMessage
 }
 
-var c17DeepText = "S1F1 W H->E deep\n" + strings.Repeat("<L ", 260) + "<U1 1>" + strings.Repeat(">", 260) + "\n."
+var c17DeepText = "S1F1 W H->E deep\n" + strings.Repeat("<L ", 130) + "<U1 1>" + strings.Repeat(">", 130) + "\n."
 
 var c17DeepWire = func() []byte {
 	b := append([]byte(nil), c07Header...)
-	for i := 0; i < 400; i++ {
+	for i := 0; i < 200; i++ {
 		b = append(b, 0x01, 0x01)
 	}
 	return patchLen(append(b, 0xA5, 0x01, 0x07))
@@ -120,6 +123,14 @@ func (s *c17Shared) run(op string) string {
 		// a well-formed frame that only the message / item constructors refuse (panic + recover path of the decoder)
 		_, ok := hsms.Parse(s.rejected)
 		return fmt.Sprint("ok=", ok)
+	case "ctrl.SelectRsp":
+		return string(ast.NewHSMSMessageSelectRsp(s.selReq, 3).ToBytes())
+	case "ctrl.DeselectRsp":
+		return string(ast.NewHSMSMessageDeselectRsp(s.deselReq, 1).ToBytes())
+	case "ctrl.LinktestRsp":
+		return string(ast.NewHSMSMessageLinktestRsp(s.ltReq).ToBytes())
+	case "ctrl.Observe":
+		return s.selReq.Type() + string(s.selReq.ToBytes()) + s.deselReq.Type() + string(s.deselReq.ToBytes()) + s.ltReq.Type() + string(s.ltReq.ToBytes())
 	case "sml.ParseDeep":
 		// a legal, deeply nested text: whatever bookkeeping the parser does per nesting level is per call
 		msgs, errs, _ := sml.Parse(c17DeepText)
@@ -200,6 +211,9 @@ func checkC17(c c17Case) (ci caseInfo, err error) {
 		sh.rejected = patchLen(append(append([]byte(nil), c07Header...), 0x41, 0x02, 0x61, 0xE9))
 	}
 	sh.badText = "S1F2 W H->E\n<L <A[2] \"abc\"> <U1 256> x x>\n."
+	sh.selReq = ast.NewHSMSMessageSelectReq(uint16(c.Variant*257), []byte{1, 2, 3, byte(c.Variant)})
+	sh.deselReq, _ = hsms.Parse(ast.NewHSMSMessageDeselectReq(uint16(c.Variant+9), []byte{9, 8, 7, 6}).ToBytes()) // a decoded request
+	sh.ltReq = ast.NewHSMSControlMessage([]byte{0x12, byte(c.Variant), 0, 0, 0, 5, 4, 3, 2, 1})                   // a raw one, bound to a session
 	ops := c.Ops
 	producers := 0
 	for _, op := range ops {
